@@ -22,7 +22,9 @@ from pathlib import Path
 VERIF = Path(__file__).resolve().parent.parent
 LEAN = Path(os.environ.get('FEMIO_VERIF_LEAN', VERIF / 'lean'))
 REPO = Path(os.environ.get('FEMIO_REPO', '/repo'))
-EVIDENCE = VERIF / 'evidence'
+# evidence committed under evidence/ must come from runs against /repo itself: a run pointed at another tree
+# (FEMIO_REPO=<scratch worktree with a seeded change>) writes to evidence-scratch/ (git-ignored) instead
+EVIDENCE = VERIF / ('evidence' if str(REPO) == '/repo' and 'FEMIO_VERIF_LEAN' not in os.environ else 'evidence-scratch')
 REPLAY = VERIF / 'replay'
 CORPUS = VERIF / 'corpus'
 ALLOWED_AXIOMS = {'propext', 'Classical.choice', 'Quot.sound'}
